@@ -1,4 +1,6 @@
 """C12 — no key ever encrypts two messages with the same nonce (provenance / once-per-unit clauses; DESIGN.md 4/C12)."""
+import re
+
 from ..mir import tymatch, Callee, last_seg, loc, op_int, op_place
 from .common import gates_of_value
 
@@ -269,13 +271,15 @@ def run(ctx):
         return (c.impl_self and (c.impl_self.get("d") or "").endswith("codec::aead::CipherMethod") and c.method in PRIMS)
 
     # role: a nonce generator step = a `&mut self` method of a *NonceGenerator type that returns the nonce (whatever it is called)
-    gen_paths = {b.defp for b in bodies if "NonceGenerator" in (b.impl_self_def or "") and b.root == b.defp and b.argc >= 1
-                 and b.local_ty(1).startswith("&mut") and "NonceGenerator" in b.local_ty(1) and "[u8]" in b.local_ty(0)}
+    from .common import aead_roles
+    AUTH_TYPES, GEN_TYPES = aead_roles(prog)
+    gen_paths = {b.defp for b in bodies if (b.impl_self_def or "") in GEN_TYPES and b.root == b.defp and b.argc >= 1
+                 and b.local_ty(1).startswith("&mut") and "[u8]" in b.local_ty(0)}
 
     def is_gen(c):
         return c.target in gen_paths
 
-    auths = [b for b in bodies if last_seg(b.impl_self_def or "") == "Authenticator" and any(is_prim(c) for (_, c, _) in b.calls())]
+    auths = [b for b in bodies if (b.impl_self_def or "") in AUTH_TYPES and any(is_prim(c) for (_, c, _) in b.calls())]
     ctx.floor("N2", "Authenticator functions calling an AEAD primitive", 5, len(auths))
     auth_paths = set()
     for b in auths:
@@ -323,13 +327,17 @@ def run(ctx):
         ctx.ob("N2", b.defp, "state-advances", loc(b.sp), writes, "generate() stores an incremented counter into self" if writes else "generate() does not advance the stored counter")
     # generator fields are owned per direction: Authenticator structs hold generator by value
     for it in prog.items:
-        if it["k"] == "struct" and last_seg(it["path"]) == "Authenticator":
+        if it["k"] == "struct" and it["path"] in AUTH_TYPES:
             for (fname, fty) in it["fields"]:
-                if "NonceGenerator" in fty:
+                if any(re.search(r"\b" + re.escape(last_seg(g)) + r"\b", fty) for g in GEN_TYPES):
                     ok = not any(k in fty for k in ("Arc<", "Rc<", "&", "Mutex<", "static"))
                     ctx.ob("N2", it["path"], f"generator-owned:{fname}", loc(it["sp"]), ok, f"generator field type {fty}", ordinal=False)
     # ---------------- N3 packet ids -----------------------------------------------------------------
-    inc = [b for b in bodies if b.method == "increase_packet_id" and b.root == b.defp]
+    # role: the `&mut self` method of the datagram session struct that advances its packet id
+    _sess_paths = {it["path"] for it in prog.items if it["k"] == "struct" and {"client_session_id", "packet_id"} <= {n for (n, _) in it["fields"]}}
+    inc = [b for b in bodies if b.root == b.defp and (b.impl_self_def or "") in _sess_paths and b.argc == 1 and b.local_ty(1).startswith("&mut") and
+           any(c.method in ("checked_add", "wrapping_add", "overflowing_add", "saturating_add") for fb in prog.family(b.defp) for (_, c, _) in fb.calls())]
+    inc_paths = {b.defp for b in inc}
     ctx.floor("N3", "client packet-id increment", 1, len(inc))
     for b in inc:
         ms = [c.method for fb in prog.family(b.defp) for (_, c, _) in fb.calls()]
@@ -370,7 +378,7 @@ def run(ctx):
     enc = [b for b in bodies if b.impl_trait and last_seg(b.impl_trait) == "Encoder" and "DatagramPacketCodec" in (b.impl_self_def or "")]
     ctx.floor("N3", "client datagram encoder", 1, len(enc))
     for b in enc:
-        incs = [(blk, c, t) for (blk, c, t) in b.calls() if c.method == "increase_packet_id"]
+        incs = [(blk, c, t) for (blk, c, t) in b.calls() if c.target in inc_paths]
         encs = [(blk, c, t) for (blk, c, t) in b.calls() if c.method == "encode" and "SessionCodec" in (c.self_def or "")]
         ok = bool(incs) and bool(encs) and all(any(b.dominates(ib, eb) and ib != eb for (ib, _, _) in incs) for (eb, _, _) in encs)
         ctx.ob("N3", b.defp, "increment-before-encode", loc(b.sp), ok, "every datagram encode is dominated by a packet-id increment" if ok else "a datagram can be encoded without advancing the packet id")
